@@ -54,14 +54,14 @@ package snaps
 // ---- events -----------------------------------------------------------------------------
 //@ func (*events).register(e, event)
 //@   mode ctl
-//@   requires e.items != nil && held[e.Mutex] == 0
+//@   requires e != nil && e.items != nil && held[e.Mutex] == 0
 //@   assigns e.items[event]
 //@   ensures e.items[event] == old(e.items[event]) + 1
 //@   ensures held[e.Mutex] == 0
 //@
 //@ func handleError(t, err)
 //@   mode ctl
-//@   requires testEvents.items != nil && held[testEvents.Mutex] == 0
+//@   requires testEvents != nil && testEvents.items != nil && held[testEvents.Mutex] == 0
 //@   assigns nErr[t], lastErr[t], testEvents.items[erred]
 //@   ensures nErr[t] == old(nErr[t]) + 1 && lastErr[t] == err
 //@   ensures testEvents.items[erred] == old(testEvents.items[erred]) + 1
@@ -212,6 +212,7 @@ package snaps
 //@   requires has(testsRegistry.running, sp) == has(testsRegistry.cleanup, sp)
 //@   requires has(testsRegistry.running, sp) ==> testsRegistry.running[sp] != nil && testsRegistry.cleanup[sp] != nil && testsRegistry.running[sp] != testsRegistry.cleanup[sp]
 //@   requires isLine(tname(t))
+//@   requires fsguard[sp] == _m && !quiescent
 //@   let k = old(testsRegistry.running[sp][tname(t)]) + 1
 //@   let id = fmtID(tname(t), k)
 //@   let snap = takeSnapshot(values)
